@@ -95,6 +95,11 @@ CHECKS = {
    text="The per-target map is shown to be written only at the prefix target (original request) or at the iterated entry's own path target (fresh request, fresh slice, the entry itself appended); every exported list-level option is shown to be copied; the three refusals and the no-target refusal are shown to return errors without forwarding; polls and split requests are shown to go, in the handler's goroutine, to the loop's own key; the relay is shown to pass the received message unchanged.",
    note="Trusted: go/types, occheck path enumeration (no inlining), the rule code. Not covered: the gNMI client library; the deprecated Path.Element of the prefix; errors of sendSubscriptionRequest are discarded by the code (unknown target silently skipped) — noted, not claimed.",
    ref="DESIGN.md §3 C19"),
+ "C20": dict(
+   technique="guard-table check transcribed from spec/Transaction.tla over the enumerated paths of the four v3 phase functions and applyValues (status wrappers inlined): dominating-condition entailment for every phase-state and cursor write, write-order rules with call events, outcome rules for the re-queue, error-domain and dropped-error discipline, nil-map and phase-status guards",
+   text="For every path of commitChange, applyChange, commitRollback, applyRollback and applyValues it is shown that each phase-state write and each cursor write sits under the enabling condition of the corresponding spec action (commit before apply, log order of commits, ordinal order of applies with the predecessor finished, abort when behind the rollback index), that the committed cursor passes a transaction only after validation or after its FAILED state was persisted, that COMPLETE follows the configuration write, that completion re-queues index+1, that the southbound Set is guarded and carries the term, and that no store error is dropped or classified in the wrong domain. The invariants Order and Consistency over histories are not decided.",
+   note="Trusted: go/types, occheck path enumeration and solver, the transcription of the spec's guards. Known finding F18d (15 sites): the status wrappers swallow Conflict/NotFound and the caller goes on to the dependent write. Four v3 defects were repaired (039eee4, f9f5608, 18c731f, e6209cd). v3 is not wired into the manager.",
+   ref="DESIGN.md §3 C20"),
 }
 
 def main():
